@@ -49,7 +49,16 @@ Spacing(ps) == LET gaps == {ps[j].sp : j \in 2..Len(ps)}
 Class(r) == r.via \o ":" \o
             (IF r.k = "rt" THEN "rt/" \o Sign(r.x.neg) \o "/" \o (IF r.x = Zero THEN "zero" ELSE RtPattern(r.x))
              ELSE "sp/" \o Sign(r.neg) \o "/" \o SpPattern(r.parts) \o "/" \o Spacing(r.parts))
-Key(r) == Class(r) \o "/" \o (IF r.err THEN "rejected" ELSE "wrong-value")
+(* Key = identity of a failing case for the verdict (coarser than Class, which is *)
+(* used for coverage): path, kind, sign, with or without a day field, how many    *)
+(* fields / how they are separated, and how it failed                             *)
+HasDay(r) == IF r.k = "rt" THEN r.x.min >= 1440 ELSE \E j \in 1..Len(r.parts) : r.parts[j].u = "d"
+Fields(x) == (IF x.min >= 1440 THEN 1 ELSE 0) + (IF (x.min \div 60) % 24 > 0 THEN 1 ELSE 0)
+             + (IF x.min % 60 > 0 THEN 1 ELSE 0) + (IF x.sec > 0 THEN 1 ELSE 0)
+Key(r) == r.via \o ":" \o r.k \o "/" \o Sign(IF r.k = "rt" THEN r.x.neg ELSE r.neg) \o "/"
+          \o (IF HasDay(r) THEN "day" ELSE "noday") \o "/"
+          \o (IF r.k = "rt" THEN (IF Fields(r.x) <= 1 THEN "single" ELSE "multi") ELSE Spacing(r.parts)) \o "/"
+          \o (IF r.err THEN "rejected" ELSE "wrong-value")
 
 (* ---- diagnostics (never part of the verdict) ---- *)
 (* gen = the case came from TLC (Duration_Gen): only those are compared with   *)
@@ -82,7 +91,7 @@ TNext == /\ i <= N
             THEN /\ bad' = IF Post(r) THEN bad
                            ELSE LET k == Key(r) IN
                                 IF k \in DOMAIN bad THEN [bad EXCEPT ![k].n = @ + 1]
-                                ELSE bad @@ (k :> [idx |-> i, n |-> 1])
+                                ELSE bad @@ (k :> [idx |-> i, n |-> 1, class |-> Class(r)])
                  /\ classes' = classes \cup {Class(r)}
                  /\ cnt' = Bump(cnt, r)
                  /\ off' = IF r.k = "rt" /\ Printable(r.x) /\ ~OnModel(r) /\ Cardinality(off) < 8 THEN off \cup {i} ELSE off
@@ -90,6 +99,6 @@ TNext == /\ i <= N
                  /\ UNCHANGED <<bad, classes, off>>
 TSpec == TInit /\ [][TNext]_<<i, bad, classes, cnt, off>>
 
-Report == i <= N \/ PrintT(ToJson([n |-> N, bad |-> {[key |-> k, idx |-> bad[k].idx, count |-> bad[k].n] : k \in DOMAIN bad},
+Report == i <= N \/ PrintT(ToJson([n |-> N, bad |-> {[key |-> k, idx |-> bad[k].idx, count |-> bad[k].n, class |-> bad[k].class] : k \in DOMAIN bad},
                                     classes |-> classes, cnt |-> cnt, offmodel |-> off]))
 =============================================================================
